@@ -267,6 +267,14 @@ def trim(cfg, l, p, is_set, allow):
 lines = []
 n_hist = collections.Counter()
 P_SUSPEND = 0.06    # probability that the next step of a history is pause + resume
+P_PRINT = 0.08      # probability that the next step is text drawn between pen requests (tickit_term_printf: it shares the
+                    # terminal's scratch buffer with the xterm driver's SGR string)
+WORDCH = "abcdefghijklmnopqrstuvwxyzABCDEFGHIJKLMNOPQRSTUVWXYZ0123456789"
+
+
+def word():
+    n = rng.choice([1, 2, 3, 5, 8, 13, 21, 34, 55, 60])
+    return "".join(rng.choice(WORDCH) for _ in range(n))
 
 
 GROUP = 1           # logical histories per protocol history (`renew` = fresh terminal inside a history; the framework now batches forks itself)
@@ -328,6 +336,12 @@ def history(cfg, nops, allow, want=None, init=None, script=None):
                 p = p(l)
         elif not allow and rng.random() < P_SUSPEND:
             is_set, p, kind = None, None, "suspend"
+        elif not allow and rng.random() < P_PRINT:
+            w = word()
+            stats["op:print"] += 1
+            stats["print:len<=8" if len(w) <= 8 else "print:len>8"] += 1
+            out.append("print " + w)
+            continue
         elif after_suspend and l and rng.random() < 0.7:
             # what follows a suspension: mostly requests that do not change the pen (they are skipped as 'already set', so
             # only the bytes of resume can have put the attributes back) or change exactly one attribute
